@@ -100,6 +100,23 @@ def run(ctx):
             if m["kind"] == "history":
                 ctx.disagree(dict(site="concurrency", what="run-history"), f"a later run of {o['expr']!r} on the same tree differs from the first one after a run on another tree",
                              dict(kind="history", expr=o["expr"], first=m["want"], later=m["got"]))
+    # histories across machines: the scalar function families (incl. argument tuples that coincide under concatenation) are
+    # replayed by two processes, one in the order of generation and one in reverse; a machine's first result may not depend on
+    # which other machines ran before it in the process
+    g2 = ctx.tlc("XPathGen", "XPathGen.cfg", workers=10, timeout=1800, heap="8g",
+                 consts={"Fams": "{6, 22}" if quick else "{5, 6, 22}", "NRand": 0, "RandKind": '"scalar"'})
+    svecs = sorted(os.path.join(g2["dir"], f) for f in os.listdir(g2["dir"]) if re.match(r"vec_\d+_\d+\.ndjson$", f))
+    fwd, rev = ctx.path("ofwd.ndjson"), ctx.path("orev.ndjson")
+    ctx.run_bin("xp-race", ["replay", "-results", "-out", fwd] + svecs, timeout=1800)
+    ctx.run_bin("xp-race", ["replay", "-results", "-reverse", "-out", rev] + svecs, timeout=1800)
+    first = {o["expr"]: o.get("res", "") for o in read_ndjson(fwd)}
+    norder = 0
+    for o in read_ndjson(rev):
+        norder += 1
+        if o["expr"] in first and first[o["expr"]] != o.get("res", ""):
+            ctx.disagree(dict(site="concurrency", what="run-history-order"),
+                         f"the first run of {o['expr']!r} gives a different result when other machines ran before it in the process",
+                         dict(kind="history-order", expr=o["expr"], after_generation_order=first[o["expr"]], after_reverse_order=o.get("res", "")))
     # histories of registrations: machines compiled earlier keep their symbols whatever is registered later
     import fam_xfuncs
     ftab = fam_xfuncs.stage(ctx, "C06", binary="xp-race")
@@ -150,7 +167,7 @@ def run(ctx):
     cov = dict(evaluations=cstats["steps"], distinct_nontrivial=cstats["schedules"],
                rule="schedules = complete behaviours of XPathConc.tla sampled by TLC -simulate (seeded), each replayed step by step on gated goroutines; "
                     "distinct = schedules (TLC's sampling does not repeat a behaviour with noticeable probability; not deduplicated)",
-               samples=samples, schedule_replay=cstats, history_vectors=nhist, function_table=ftab, lock_protocol_proof=proof, stress=sstats, trace_events=events,
+               samples=samples, schedule_replay=cstats, history_vectors=nhist, order_history_vectors=norder, function_table=ftab, lock_protocol_proof=proof, stress=sstats, trace_events=events,
                race_reports=races + races2, exhaustive=False,
                explanation="exhaustive interleavings of two small configurations on the spec (states/transitions), sampled interleavings replayed on real goroutines under -race")
     return ctx.finish(cov, [
